@@ -63,6 +63,25 @@ pub fn hostile_values(thorough: bool) -> Vec<LN> {
         v.extend(crate::lexu::u_term(&f, 0, false).into_iter().map(LN::Term));
         v.extend(crate::lexu::u_sent(&f).into_iter().step_by(if thorough { 1 } else { 11 }));
     }
+    // giants that no text of 512 characters can produce, only a hand-built value: flat compounds of 3 000 and 100 000
+    // atoms, and a tower of 64 levels with 60 / 130 components on every level (stack use that grows with width x depth)
+    {
+        use narsese::lexical::Term as LTerm;
+        let atom = |n: &str| LTerm::Atom { prefix: String::new(), name: n.to_string() };
+        for n in [3_000usize, 100_000] {
+            v.push(LN::Term(LTerm::Compound { connecter: "*".to_string(), terms: (0..n).map(|i| atom(&format!("w{}", i % 1000))).collect() }));
+            v.push(LN::Term(LTerm::Set { left_bracket: "{".to_string(), terms: (0..n).map(|i| atom(&format!("w{}", i % 1000))).collect(), right_bracket: "}".to_string() }));
+        }
+        for (w, d) in [(60usize, 64usize), (130, 32), (130, 64)] {
+            let mut t = atom("a");
+            for _ in 0..d {
+                let mut kids: Vec<LTerm> = (0..w - 1).map(|i| atom(&format!("s{i}"))).collect();
+                kids.push(t);
+                t = LTerm::Compound { connecter: "*".to_string(), terms: kids };
+            }
+            v.push(LN::Term(t));
+        }
+    }
     v
 }
 
